@@ -777,7 +777,7 @@ def run(ctx: Ctx):
 
     # CelLit: encoder outputs, mutations of them, random texts over the alphabet
     base = [t for t in texts if t and len(t) < 400]
-    n_mut = 1500 if ctx.quick() else 20000
+    n_mut = 1500 if ctx.quick() else 30000
     for k in range(n_mut):
         texts.append(mutate(rng, rng.choice(base)) if k % 5 else random_text(rng))
     seen = set()
